@@ -86,6 +86,21 @@ func (e *Enc) call(fr *Frame, ins *ssa.Call, c *ssa.CallCommon, guard T, st *Sta
 			fr.vals[ins] = Val{Typ: ins.Type(), Tup: vals}
 		}
 	}
+	// ghost: remember that something with this name was called on this path
+	if fr != nil && fr.depth == 0 {
+		nm := ""
+		if c.IsInvoke() {
+			nm = c.Method.Name()
+		} else if f, ok := c.Value.(*ssa.Function); ok {
+			nm = f.Name()
+		}
+		if nm != "" {
+			k := "!called|" + nm
+			e.heapSorts[k] = BoolS
+			st.H[k] = True
+			e.markWrite(k)
+		}
+	}
 	var args []Val
 	if b, ok := c.Value.(*ssa.Builtin); ok {
 		for _, a := range c.Args {
@@ -198,8 +213,15 @@ func (e *Enc) callStatic(fr *Frame, fn *ssa.Function, args []Val, bind []Val, gu
 		if fr != nil {
 			path = fr.path
 		}
-		res, _ := e.inline(fr, fn, args, bind, guard, st, depth+1, path+">"+fn.Name())
-		return res
+		explicit := (ct != nil && ct.Inline) || bind != nil || fn.Parent() != nil
+		if explicit {
+			res, _ := e.inline(fr, fn, args, bind, guard, st, depth+1, path+">"+fn.Name())
+			return res
+		}
+		// automatic inlining is best effort: if the callee leaves the supported subset, fall back to havoc
+		if res, ok := e.tryInline(fr, fn, args, guard, st, depth+1, path+">"+fn.Name()); ok {
+			return res
+		}
 	}
 	if e.effectFreeFn(fn) {
 		rs := e.freshResults(fn.Signature, hint)
@@ -211,6 +233,40 @@ func (e *Enc) callStatic(fr *Frame, fn *ssa.Function, args []Val, bind []Val, gu
 	e.approximate("call " + fn.String())
 	e.havocAll(st, fn.String())
 	return e.freshResults(fn.Signature, hint)
+}
+
+// tryInline inlines fn; when the callee turns out to be unsupported everything it emitted is
+// rolled back (declarations are kept, assertions and obligations dropped) and false is returned.
+func (e *Enc) tryInline(fr *Frame, fn *ssa.Function, args []Val, guard T, st *State, depth int, path string) (res []Val, ok bool) {
+	saveOut, saveObls, saveApprox := len(e.out), len(e.obls), len(e.approx)
+	saveSt := st.clone()
+	saveStack := len(e.inlineStack)
+	saveSeen := map[string]int{}
+	for k, v := range e.oblSeen {
+		saveSeen[k] = v
+	}
+	defer func() {
+		if r := recover(); r != nil {
+			if _, isU := r.(unsupported); !isU {
+				panic(r)
+			}
+			kept := e.out[:saveOut]
+			for _, l := range e.out[saveOut:] {
+				if !strings.HasPrefix(l, "(assert ") {
+					kept = append(kept, l)
+				}
+			}
+			e.out = kept
+			e.obls = e.obls[:saveObls]
+			e.approx = e.approx[:saveApprox]
+			e.inlineStack = e.inlineStack[:saveStack]
+			e.oblSeen = saveSeen
+			*st = *saveSt
+			res, ok = nil, false
+		}
+	}()
+	res, _ = e.inline(fr, fn, args, nil, guard, st, depth, path)
+	return res, true
 }
 
 func (e *Enc) autoInline(fn *ssa.Function, depth int) bool {
@@ -498,6 +554,13 @@ func (e *Enc) cutsBefore(fr *Frame, b *ssa.BasicBlock, i int, ins ssa.Instructio
 		sc := e.scopeAt(fr, b, i-1, st)
 		if cs.Before {
 			sc = e.scopeAt(fr, b, i, st)
+		}
+		for _, c := range cs.Lets {
+			v := e.eval(sc, c.E, nil)
+			if v.Tup == nil {
+				v = e.nameVal(v, "ghost_"+c.Label)
+			}
+			fr.lets[c.Label] = v
 		}
 		for _, c := range cs.Assumes {
 			e.assert(Implies(guard, e.evalBool(sc, c.E)))
